@@ -9,6 +9,7 @@ import (
 	"github.com/golang/geo/s2"
 	"pgregory.net/rapid"
 
+	"verifharness/internal/exact"
 	"verifharness/internal/gen"
 )
 
@@ -475,6 +476,41 @@ func genSliver(t *rapid.T) sliverCase {
 
 // ---------------------------------------------------------------- polygons
 
+// hugSystem: a regular-ish shell of 4..8 vertices (radius r about c) and a hole
+// (p, q, in) where p, q are interpolated on one shell edge and moved inwards by
+// ulps until the exact orientation test puts them strictly left of that edge,
+// and in is halfway to the centre.
+func hugSystem(t *rapid.T, l string, c s2.Point, x, y r3.Vector, r float64) (ringSystem, bool) {
+	n := rapid.IntRange(4, 8).Draw(t, l+".hn")
+	az0 := rapid.Float64Range(0, 2*math.Pi).Draw(t, l+".haz")
+	shell := make([]s2.Point, n)
+	for i := range shell {
+		az := az0 + float64(i)*2*math.Pi/float64(n)
+		dir := x.Mul(math.Cos(az)).Add(y.Mul(math.Sin(az)))
+		shell[i] = gen.Fix(s2.Point{Vector: c.Mul(math.Cos(r)).Add(dir.Mul(math.Sin(r))).Normalize()}, c)
+	}
+	e := rapid.IntRange(0, n-1).Draw(t, l+".he")
+	a, b := shell[e], shell[(e+1)%n]
+	f1 := rapid.Float64Range(0.05, 0.6).Draw(t, l+".hf1")
+	f2 := f1 + rapid.Float64Range(0.05, 0.35).Draw(t, l+".hf2")
+	inside := func(p s2.Point) (s2.Point, bool) {
+		for k := 0; k < 40; k++ {
+			if exact.Sign(a.Vector, b.Vector, p.Vector) > 0 {
+				return p, true
+			}
+			p = s2.Point{Vector: p.Add(c.Mul(float64(k+1) * 0x1p-53)).Normalize()}
+		}
+		return p, false
+	}
+	p, ok1 := inside(s2.Interpolate(f1, a, b))
+	q, ok2 := inside(s2.Interpolate(f2, a, b))
+	in := s2.Interpolate(0.5, s2.Interpolate((f1+f2)/2, a, b), c)
+	if !ok1 || !ok2 || p == q {
+		return ringSystem{}, false
+	}
+	return ringSystem{Center: gen.FromPt(c), Rings: [][]gen.P{gen.FromPts(shell), gen.FromPts([]s2.Point{p, q, in})}}, true
+}
+
 // ringSystem: concentric rings about one centre, outermost first; ring k is
 // strictly inside ring k-1 (radius bands [0.8,1]·R·0.7^k, ≥ 8 vertices each), so
 // its nesting depth is k.
@@ -512,6 +548,16 @@ func genPolygon(t *rapid.T) polyCase {
 		k := rapid.IntRange(1, 4).Draw(t, l+".rings")
 		rout := math.Exp(rapid.Float64Range(math.Log(1e-6), math.Log(0.5)).Draw(t, l+".lr"))
 		rs := ringSystem{Center: gen.FromPt(c)}
+		if rapid.IntRange(0, 3).Draw(t, l+".hug") == 0 {
+			// a shell of 4..8 long edges and a triangular hole with one edge lying
+			// along (strictly inside, within rounding of) a shell edge: the two
+			// loops' bounding rectangles then differ by rounding only on that side
+			if hs, ok := hugSystem(t, l, c, x, y, math.Max(rout, 0.05)); ok {
+				pc.Sys = append(pc.Sys, hs)
+				total += 2
+				continue
+			}
+		}
 		for ring := 0; ring < k; ring++ {
 			n := rapid.IntRange(8, maxN).Draw(t, l+".n")
 			hi := rout * math.Pow(0.7, float64(ring))
